@@ -89,6 +89,9 @@ def run_case(ctx, case, rng):
   if case % 7 == 3:
     return tied_case(ctx, case, rng)
   spec = models.model_for_case(rng, multi_sub_p=0.1, template_p=0.2)
+  if case % 128 == 21:
+    spec = models.t_very_deep(rng)        # directed: more than 255 operators once DEQUANTIZE operators are inserted
+    ctx.count('very_deep_models')
   datasets = {s['key']: [gdata.sample(rng, s, str(rng.choice(['normal', 'scaled', 'positive']))) for _ in range(3)] for s in spec.signatures}
   ok, _ = common.admit(spec, datasets)
   if not ok:
@@ -101,6 +104,8 @@ def run_case(ctx, case, rng):
     wops = [o for o in recipes.op_names_in(src) if o in c03.WEIGHT_OPS]
     rules = recipes.random_rules(rng, src, safe_regex=True, cfg_pool=POOL, star_p=0.5,
                                  selectors=(['*'] * 2 + wops * 2) if wops else None)
+  if 'more_than_255_operators' in spec.classes:
+    rules = [('.*', '*', str(rng.choice(['wo8a_cw', 'wo8s_tw', 'wo4s_cw', 'fp16'])))]      # one DEQUANTIZE per FULLY_CONNECTED
   run = common.pipeline(spec, datasets, rules=rules)
   if run.phase == 'no_rule_accepted':
     return {'outcome': 'skipped', 'reason': 'no_rule_accepted'}
